@@ -231,6 +231,9 @@ func (r *runner) exec0(o op, writes []writeBatch) error {
 		r.res.count("op.compact_data", 1)
 		r.res.count("data_families_compacted_with_2+_files", k)
 	case "compact-index":
+		if os.Getenv("C11_NO_COMPACT_INDEX") != "" {
+			return nil
+		}
 		r.log("compact index and meta families")
 		k := r.n.CompactStores("index") + r.n.CompactStores("meta")
 		r.res.count("op.compact_index_meta", 1)
@@ -448,6 +451,9 @@ func (r *runner) check(q *node.Query, stage string) *checkOutcome {
 		}
 		if res.ResultSet != nil {
 			w["result"] = strings.Split(node.Canonical(res.ResultSet, q.GroupBy), "\n")
+		}
+		if res.StuckDump != "" {
+			w["stuck_dump"] = strings.Split(res.StuckDump, "\n")
 		}
 		return w
 	}
@@ -719,50 +725,64 @@ func (r *runner) classify(q *node.Query, st storageState, diffs []node.Diff, fie
 }
 
 // droppedFamilies lists the data families in the query range that hold table blocks of the metric overlapping the
-// queried slots none of which carries a queried field, together with data of the metric in a memory database: the
-// shape in which dataFamily.Filter returns the file filter's not-found error and loses the memory results with it.
-// (Labelling only.)
+// queried slots none of which carries both a queried field and a selected series: the shape in which
+// dataFamily.Filter returns the file filter's not-found error and loses the memory results with it. (Labelling only;
+// the blocks are the tracker's view of what each flush wrote.)
 func (r *runner) droppedFamilies(q *node.Query, fields []string) map[famKey]bool {
 	out := map[famKey]bool{}
 	plan := r.m.PlanOf(q)
-	tr := timeutil.TimeRange{Start: plan.Start, End: plan.End}
 	want := map[string]bool{}
 	for _, f := range fields {
 		want[f] = true
 	}
 	for f := range r.m.AggTypes(q) {
+		if strings.HasPrefix(f, "__bucket_") {
+			f = "__bucket"
+		}
 		want[f] = true
 	}
-	for _, id := range r.opts.ShardIDs {
-		shard, ok := r.n.Shard(id)
-		if !ok {
+	// the series the tag condition selects
+	selected := map[string]bool{}
+	for _, tags := range r.m.SeriesTags(q.Namespace, q.Metric) {
+		if q.Cond == nil || q.Cond.Match(tags) {
+			p := node.Point{Namespace: q.Namespace, Metric: q.Metric, Tags: tags}
+			selected[p.SeriesKey()] = true
+		}
+	}
+	for fk, blocks := range r.track.fileBlocks(q.Metric) {
+		if plan.End < fk.family || plan.Start > fk.family+hourMs-1 {
 			continue
 		}
-		for _, f := range shard.GetDataFamilies(timeutil.Interval(slotMs).Type(), tr) {
-			blocks, _ := r.n.FileBlocks(f, q.Namespace, q.Metric)
-			lo, hi := 0, slotsPerHr-1
-			if plan.Start > f.FamilyTime() {
-				lo = int((plan.Start - f.FamilyTime()) / slotMs)
+		lo, hi := 0, slotsPerHr-1
+		if plan.Start > fk.family {
+			lo = int((plan.Start - fk.family) / slotMs)
+		}
+		if plan.End < fk.family+hourMs-1 {
+			hi = int((plan.End - fk.family) / slotMs)
+		}
+		considered, matched := 0, 0
+		for _, b := range blocks {
+			if b.hi < lo || b.lo > hi {
+				continue
 			}
-			if plan.End < f.FamilyTime()+hourMs-1 {
-				hi = int((plan.End - f.FamilyTime()) / slotMs)
-			}
-			considered, matched := 0, 0
-			for _, b := range blocks {
-				if b.SlotEnd < lo || b.SlotStart > hi {
-					continue
-				}
-				considered++
-				for _, name := range b.Fields {
-					if want[name] {
-						matched++
-						break
-					}
+			considered++
+			fieldOK, seriesOK := false, false
+			for f := range b.fields {
+				if want[f] {
+					fieldOK = true
 				}
 			}
-			if considered > 0 && matched == 0 {
-				out[famKey{f.FamilyTime(), int(id)}] = true
+			for sk := range b.series {
+				if selected[sk] {
+					seriesOK = true
+				}
 			}
+			if fieldOK && seriesOK {
+				matched++
+			}
+		}
+		if considered > 0 && matched == 0 {
+			out[fk] = true
 		}
 	}
 	return out
@@ -778,7 +798,14 @@ func (r *runner) droppedFileFamilies(q *node.Query) map[famKey]bool {
 	for f := range r.m.AggTypes(q) {
 		fields = append(fields, f)
 	}
-	return r.track.memFamiliesWithoutFields(q.Metric, fields, func(fk famKey) (int, int, bool) {
+	selected := map[string]bool{}
+	for _, tags := range r.m.SeriesTags(q.Namespace, q.Metric) {
+		if q.Cond == nil || q.Cond.Match(tags) {
+			p := node.Point{Namespace: q.Namespace, Metric: q.Metric, Tags: tags}
+			selected[p.SeriesKey()] = true
+		}
+	}
+	return r.track.memFamiliesWithoutFields(q.Metric, fields, selected, func(fk famKey) (int, int, bool) {
 		if plan.End < fk.family || plan.Start > fk.family+hourMs-1 {
 			return 0, 0, false
 		}
@@ -960,8 +987,8 @@ func runHistCase(idx int, dir, tier string, seed int64) *caseResult {
 					if ok && (ov == v || (ov-v < 1e-9 && v-ov < 1e-9)) {
 						continue
 					}
-					if ev := expValueOfKey(exp, key); ev != nil && ev.Lenient {
-						continue // the reference accepts a value as well as no value here (missing operand / empty quantile bucket)
+					if ev := expValueOfKey(exp, key); ev == nil || ev.Lenient {
+						continue // the reference accepts a value as well as no value here (missing operand / quantile zero fill)
 					}
 					differing = append(differing, fmt.Sprintf("%s: memory=%v %s=%v(present=%v)", key, v, style, ov, ok))
 					parts := strings.Split(key, "|")
